@@ -665,6 +665,20 @@ def infidelity_derivative(
                                                                  n_oper_identifiers,
                                                                  n_coeffs_deriv)
 
+    if n_coeffs_deriv is not None:
+        # infidelity() excludes the identity component of the noise operators. Its contribution to
+        # the filter function, |tr(B_a) int dt e^{iwt} s_a(t)|^2/d, depends on the control amplitudes
+        # only through the sensitivities s_a.
+        seg = np.array([numeric._first_order_integral(
+            omega, np.zeros(1), dt_g, *np.empty((2, len(omega), 1, 1), dtype=complex)
+        )[:, 0, 0] for dt_g in pulse.dt])*util.cexp(np.multiply.outer(pulse.t[:-1], omega))
+        traces = np.einsum('ajj->a', pulse.n_opers[n_idx])
+        ident = traces[:, None]*(pulse.n_coeffs[n_idx] @ seg)
+        ident_deriv = (traces[:, None, None, None]
+                       * np.swapaxes(n_coeffs_deriv, 1, 2)[..., None]*seg[None, :, None, :])
+        filter_function_deriv = (filter_function_deriv
+                                 - 2*(ident.conj()[:, None, None]*ident_deriv).real/pulse.d)
+
     integrand = np.einsum('...o,...tho->...tho', spectrum, filter_function_deriv)
     infid_deriv = util.integrate(integrand, omega) / (2*np.pi*pulse.d)
 
